@@ -352,8 +352,11 @@ def run_check(pid: str, tier: str) -> int:
             known_seen[k["signature"]][1] += len(vs)
         else:
             new_sigs.append(sig)
-    for ksig, (k, cnt) in sorted(known_seen.items()):
-        print(f"KNOWN-FINDING: property={pid} {k['what']} [signature={ksig} occurrences={cnt}]")
+    # one line per LISTED open finding of this property (observed in this batch or not)
+    for k in known:
+        if k.get("status") == "open" and k["property"] == pid:
+            cnt = known_seen.get(k["signature"], (k, 0))[1]
+            print(f"KNOWN-FINDING: property={pid} {k['what']} [signature={k['signature']} occurrences-in-this-run={cnt}]")
     replay_paths = []
     for i, sig in enumerate(new_sigs):
         vs = by_sig[sig]
